@@ -11,6 +11,10 @@ from .state import State, OutOfSubset, ContractDrift, feasible
 from .engine import TRUE, FALSE, zand, zor, znot, MUTATORS
 
 
+class BindMismatch(ContractDrift):
+    pass
+
+
 class Contract:
     def __init__(self, key, module=None, qualname=None, params=None, returns=None, requires=(), ensures=(),
                  raises=(), locals=None, loops=None, defn=None, modifies=(), kind="function",
@@ -331,8 +335,8 @@ class Registry:
             s, mk, accs = __import__("pyvc.vals", fromlist=["tuple_sort"]).tuple_sort(v.t[1])
             p = z3.Const(fresh_name("p"), s)
             sub = [(c, acc(p)) for c, acc in zip(consts, accs)]
-            return V(("set", v.t), z3.Lambda([p], z3.substitute(body, *sub)))
-        return V(("set", v.t), z3.Lambda(consts, body))
+            return V(("set", v.t), eng.mkset(st, [p], z3.substitute(body, *sub)))
+        return V(("set", v.t), eng.mkset(st, consts, body))
 
     def old(self, eng, node, st):
         s2 = State()
@@ -461,7 +465,7 @@ class Registry:
         et = elt.t
         y = z3.Const(fresh_name("y"), sort_of(et))
         body = z3.Exists(items["consts"], z3.And(items["member"], y == to_term(elt)))
-        return [(st, V((kind, et), z3.Lambda([y], body)))]
+        return [(st, V((kind, et), eng.mkset(st, [y], body)))]
 
     def dict_comprehension(self, eng, node, st):
         items = self.comp_items(eng, node, st)
@@ -472,7 +476,7 @@ class Registry:
         kt, vt = k.t, v.t
         # functional only if keys determine values: emit that as an obligation-free requirement -> refuse otherwise
         dom_y = z3.Const(fresh_name("k"), sort_of(kt))
-        dom = z3.Lambda([dom_y], z3.Exists(items["consts"], z3.And(items["member"], dom_y == to_term(k))))
+        dom = eng.mkset(st, [dom_y], z3.Exists(items["consts"], z3.And(items["member"], dom_y == to_term(k))))
         val = z3.Const(fresh_name("dcval"), z3.ArraySort(sort_of(kt), sort_of(vt)))
         # last write wins in Python; we only state: every value stored under a key comes from *some* generator item
         kk = z3.Const(fresh_name("k"), sort_of(kt))
@@ -504,7 +508,7 @@ class Registry:
             return self.call_method(eng, st, inner, attr, args, kwargs, node, is_property, recv_expr)
         fam = self.family_of(recv)
         rx = recv_expr if recv_expr is not None else (node.value if isinstance(node, ast.Attribute) else None)
-        if isinstance(rx, ast.Name) and rx.id == "self" and eng.cls and not eng.spec:
+        if isinstance(rx, ast.Name) and rx.id == "self" and eng.cls and not eng.spec and recv.t[0] != "obj":
             fam = eng.cls  # dynamic class of self is the class under verification
         if fam is None:
             raise OutOfSubset(f"method {attr} on {recv.t} (line {getattr(node, 'lineno', '?')})")
@@ -529,6 +533,15 @@ class Registry:
 
     # ------------------------------------------------------------------ the call rule
     def apply_contract(self, eng, c: Contract, args, kwargs, st, node, self_expr=None):
+        try:
+            return self._apply_contract(eng, c, args, kwargs, st, node, self_expr)
+        except BindMismatch:
+            alt = getattr(c, "alt", None)
+            if alt is None:
+                raise
+            return self.apply_contract(eng, alt, args, kwargs, st, node, self_expr)
+
+    def _apply_contract(self, eng, c: Contract, args, kwargs, st, node, self_expr=None):
         """Modular call: assert pre, fork on each raises-condition, assume post. The callee body is never inspected."""
         lineno = getattr(node, "lineno", 0)
         pnames = list(c.params)
@@ -554,9 +567,14 @@ class Registry:
                 finally:
                     eng.spec = saved
             try:
-                cs.vars[n] = coerce(bound[n], c.params[n]) if c.params[n][0] != "closure" else bound[n]
+                a_ = bound[n]
+                if a_.t[0] == "opt" and c.params[n][0] not in ("opt", "closure"):
+                    if not eng.spec:
+                        eng.oblige(st, znot(a_.x[0]), "pre@call", f"pre@call[{c.key}@{lineno}:{n} is not None]", lineno)
+                    a_ = a_.x[1]
+                cs.vars[n] = coerce(a_, c.params[n]) if c.params[n][0] != "closure" else a_
             except TypeError as e:
-                raise ContractDrift(f"{c.key}: argument {n}: {e} (line {lineno})")
+                raise BindMismatch(f"{c.key}: argument {n}: {e} (line {lineno})")
         cs.old = {k: deep_copy(v) for k, v in cs.vars.items()}
         if c.inline and not eng.spec:
             if getattr(eng, "qdepth", 0) > 0:
